@@ -1,12 +1,13 @@
 #!/bin/sh
-# tools_trial_env.sh — (re)creates an isolated copy of the framework and of the repository for
-# seeded-change trials, so that development in /verif and /repo is not disturbed:
-#   /tmp/verif_trial  = rsync of /verif (committed or not), harness go.mod pointing at /tmp/repo_trial
-#   /tmp/repo_trial   = detached git worktree of /repo HEAD
+# tools_trial_env.sh [suffix] — (re)creates an isolated copy of the framework and of the repository
+# for seeded-change trials, so that development in /verif and /repo is not disturbed:
+#   /tmp/verif_trial<suffix>  = rsync of /verif (committed or not), harness go.mod pointing at the repo copy
+#   /tmp/repo_trial<suffix>   = detached git worktree of /repo HEAD
 set -e
-git -C /repo worktree remove --force /tmp/repo_trial 2>/dev/null || true
-rm -rf /tmp/repo_trial /tmp/verif_trial
-git -C /repo worktree add -q --detach /tmp/repo_trial HEAD
-rsync -a --exclude .git --exclude .work --exclude replays /verif/ /tmp/verif_trial/
-sed -i 's#=> /repo#=> /tmp/repo_trial#' /tmp/verif_trial/harness/go.mod
-echo "trial env ready: TRIAL_VERIF=/tmp/verif_trial TRIAL_REPO=/tmp/repo_trial"
+S="$1"
+git -C /repo worktree remove --force /tmp/repo_trial$S 2>/dev/null || true
+rm -rf /tmp/repo_trial$S /tmp/verif_trial$S
+git -C /repo worktree add -q --detach /tmp/repo_trial$S HEAD
+rsync -a --exclude .git --exclude .work --exclude replays /verif/ /tmp/verif_trial$S/
+sed -i "s#=> /repo#=> /tmp/repo_trial$S#" /tmp/verif_trial$S/harness/go.mod
+echo "trial env ready: TRIAL_VERIF=/tmp/verif_trial$S TRIAL_REPO=/tmp/repo_trial$S"
